@@ -3,7 +3,7 @@ VIEW View
 CONSTANTS
   R = 4
   NW = 2
-  MaxCmds = 4
+  MaxCmds = 3
   Lmin = 3
   Lmax = 3
   Fix = FALSE
